@@ -90,7 +90,9 @@ def mulVec (a : Mat) (x : Vec) : Vec := tab a.nRow fun i => sumTo a.nCol fun j =
 /-- column `k` as a vector -/
 def col (a : Mat) (k : Nat) : Vec := tab a.nRow fun i => a.get i k
 /-- matrix whose columns are `f 0, …, f (k-1)` (`np.stack(..., axis=-1)`) -/
-def ofCols (n k : Nat) (f : Nat → Vec) : Mat := ofFn n k fun i j => vget (f j) i
+def ofCols (n k : Nat) (f : Nat → Vec) : Mat :=
+  let cols := tab k f
+  ofFn n k fun i j => vget (cols.getD j []) i
 /-- `k`-th power (`a` square) -/
 def pow (a : Mat) : Nat → Mat
   | 0 => identity a.nRow
@@ -219,7 +221,9 @@ def astype (s : SLR) : SLR := s
 /-- `_matvec`, branch `len(matrix.shape) == 1` -/
 def matvec (s : SLR) (v : Vec) : Vec :=
   s.tuples.foldl
-    (fun prod t => tab s.nRow fun i => vget prod i + vget t.1 i * vdot s.nCol v t.2)
+    (fun prod t =>
+      let d := vdot s.nCol v t.2
+      tab s.nRow fun i => vget prod i + vget t.1 i * d)
     (s.sparse.mulVec v)
 
 /-- `_matvec`, 2-d branch: `prod += x[:, newaxis].dot(transposed.dot(y)[:, newaxis].T)` -/
@@ -455,7 +459,9 @@ def transpose (p : Polynome) : Except PyErr Polynome := init p.matrix.transpose 
 
 /-- the loop `for a in self.coeffs[::-1][1:]: y = self.matrix.dot(y) + a * matrix` -/
 def hornerLoop (m : Mat) (v : Vec) (rest : List Rat) (y : Vec) : Vec :=
-  rest.foldl (fun y a => tab m.nRow fun i => vget (m.mulVec y) i + a * vget v i) y
+  rest.foldl (fun y a =>
+    let my := m.mulVec y
+    tab m.nRow fun i => vget my i + a * vget v i) y
 
 /-- `_matvec` (Ruffini–Horner) -/
 def matvec (p : Polynome) (v : Vec) : Vec :=
@@ -465,7 +471,9 @@ def matvec (p : Polynome) (v : Vec) : Vec :=
 
 /-- `_matvec` on a 2-d array: the same loop column by column -/
 def hornerLoopM (m : Mat) (x : Mat) (rest : List Rat) (y : Mat) : Mat :=
-  rest.foldl (fun y a => Mat.ofFn m.nRow x.nCol fun i k => (m.mul y).get i k + a * x.get i k) y
+  rest.foldl (fun y a =>
+    let my := m.mul y
+    Mat.ofFn m.nRow x.nCol fun i k => my.get i k + a * x.get i k) y
 
 def matmat (p : Polynome) (x : Mat) : Mat :=
   match p.coeffs.reverse with
@@ -525,8 +533,13 @@ def matvec : Op → Vec → Vec
   | lap l, v => l.matvec v
   | con c, v => c.matvec v
   | pol p, v => p.matvec v
-  | gsum a b, v => tab a.nRow fun i => vget (a.matvec v) i + vget (b.matvec v) i
-  | gscaled a c, v => tab a.nRow fun i => c * vget (a.matvec v) i
+  | gsum a b, v =>
+    let av := a.matvec v
+    let bv := b.matvec v
+    tab a.nRow fun i => vget av i + vget bv i
+  | gscaled a c, v =>
+    let av := a.matvec v
+    tab a.nRow fun i => c * vget av i
 
 /-- `operator.dot(x)` on a vector: scipy checks the length -/
 def dot (o : Op) (v : Vec) : Except PyErr Vec :=
